@@ -572,3 +572,101 @@ func TestVerifC09Assembled(t *testing.T) {
 	}
 
 }
+
+// TestVerifC09SharedAccumulatorTimes: two (three) witnesses are brought to one index by ONE update object,
+// after which they hold the same signed-accumulator object; re-signatures of that accumulator with
+// different times are then shown to them in every order.  No witness may move backwards in time -
+// neither the one that is shown an older signature nor, through the shared object, any other.
+func TestVerifC09SharedAccumulatorTimes(t *testing.T) {
+	r := vkit.Start(t, "C09", "shared-accumulator-times", 120*time.Second, 400*time.Second)
+	defer r.Finish()
+	r.Rule = "history of 3 revocations; 2 and 3 witnesses issued at index 0 and advanced to b in {1,2,3} by one shared update object (and, as control, by separate ones); then every sequence of <= 3 same-index re-signatures with time offsets from {0, 100, 200, 300}, each shown to any one witness; non-trivial = distinct (b, witnesses, sharing, sequence); oracle after every step, for EVERY witness: the time of the accumulator it holds never decreases and is at least the newest it was itself shown; index unchanged; it verifies"
+	rvInstallEnv(t, "C09times", r.Seed)
+	sk, pk := rvKeys(32, 0)
+	world := rvNewWorld(sk, pk, []*big.Int{rvPrime(5), rvPrime(6), rvPrime(7)})
+	dts := []int64{0, 100, 200, 300}
+	for b := 1; b <= 3; b++ {
+		for _, nw := range []int{2, 3} {
+			for _, shared := range []bool{true, false} {
+				// sequences of (target witness, dt)
+				type st struct {
+					w  int
+					dt int64
+				}
+				var seqs [][]st
+				var rec func(cur []st)
+				rec = func(cur []st) {
+					if len(cur) > 0 {
+						seqs = append(seqs, append([]st{}, cur...))
+					}
+					if len(cur) == 3 {
+						return
+					}
+					for w := 0; w < nw; w++ {
+						for _, dt := range dts {
+							rec(append(cur, st{w, dt}))
+						}
+					}
+				}
+				rec(nil)
+				for _, sq := range seqs {
+					if _, mine := r.Next(); !mine {
+						continue
+					}
+					if r.Expired() {
+						return
+					}
+					desc := fmt.Sprintf("b=%d witnesses=%d shared=%v seq=%v", b, nw, shared, sq)
+					r.Eval()
+					r.Nontrivial(desc)
+					wits := make([]*Witness, nw)
+					shownMax := make([]int64, nw)
+					lastTime := make([]int64, nw)
+					first := world.Window(1, b, 0)
+					bad := false
+					for i := range wits {
+						wits[i] = world.Witness(0, rvPrime(i))
+						u := first
+						if !shared {
+							u = world.Window(1, b, 0)
+						}
+						if err := wits[i].Update(pk, u); err != nil {
+							r.Violate("C09|applicable-update-failed|shared="+fmt.Sprint(shared), desc+": "+err.Error(), desc)
+							bad = true
+							break
+						}
+						shownMax[i] = wits[i].SignedAccumulator.Accumulator.Time
+						lastTime[i] = shownMax[i]
+					}
+					if bad {
+						continue
+					}
+					for si, s := range sq {
+						u := world.Window(b+1, b, s.dt) // no events, accumulator b re-signed with a later time
+						err := wits[s.w].Update(pk, u)
+						if err != nil {
+							r.Violate("C09|refresh-failed", fmt.Sprintf("%s step %d: %v", desc, si, err), desc)
+							break
+						}
+						if tm := u.SignedAccumulator.Accumulator.Time; tm > shownMax[s.w] {
+							shownMax[s.w] = tm
+						}
+						for i, w := range wits {
+							tm := w.SignedAccumulator.Accumulator.Time
+							switch {
+							case tm < lastTime[i]:
+								r.Violate("C09|witness-moved-backwards-in-time", fmt.Sprintf("%s step %d: witness %d went from accumulator time %d to %d", desc, si, i, lastTime[i], tm), desc)
+							case tm < shownMax[i]:
+								r.Violate("C09|witness-older-than-what-it-was-shown", fmt.Sprintf("%s step %d: witness %d holds time %d, was shown %d", desc, si, i, tm, shownMax[i]), desc)
+							case int(w.SignedAccumulator.Accumulator.Index) != b || w.Verify(pk) != nil:
+								r.Violate("C09|refresh-changed-index", fmt.Sprintf("%s step %d: witness %d", desc, si, i), desc)
+							}
+							lastTime[i] = tm
+						}
+					}
+					r.Outcome(fmt.Sprintf("shared=%v:ok", shared))
+				}
+			}
+		}
+	}
+}
